@@ -412,6 +412,17 @@ func (P *Program) replayOnCode(o *Obligation, model map[string]string) map[strin
 		paramDecl.WriteString(fmt.Sprintf("\tvar %s %s = %s\n\t_ = %s\n", p.Name(), g.typeStr(p.Type()), args[pi], p.Name()))
 		pi++
 	}
+	for i, p := range fn.Params {
+		if pt, ok := p.Type().Underlying().(*types.Pointer); ok {
+			if _, ok := pt.Elem().Underlying().(*types.Struct); ok {
+				n := p.Name()
+				if i == 0 && fn.Signature.Recv() != nil {
+					n = safeName(p.Name(), "recv")
+				}
+				paramDecl.WriteString(fmt.Sprintf("\tsnap_%s := %s\n\tif %s != nil {\n\t\tc := *%s\n\t\tsnap_%s = &c\n\t}\n\t_ = snap_%s\n", n, n, n, n, n, n))
+			}
+		}
+	}
 	var callArgs []string
 	for i, p := range fn.Params {
 		if i == 0 && fn.Signature.Recv() != nil {
@@ -532,6 +543,7 @@ type goExprGen struct {
 	args map[string]string
 	why  string
 	bound map[string]bool
+	inOld bool
 }
 
 func (c *goExprGen) gen(e *Expr) (string, string, bool) {
@@ -570,11 +582,17 @@ func (c *goExprGen) gen(e *Expr) (string, string, bool) {
 		}
 		for _, p := range fnv.Params {
 			if p.Name() == e.Name {
-				return c.wrapVal(p.Name(), p.Type())
+				return c.wrapVal(c.paramName(p.Name(), p.Type()), p.Type())
 			}
 		}
 		c.why = "identifier " + e.Name
 		return "", "", false
+	case "old":
+		save := c.inOld
+		c.inOld = true
+		a, k, ok := c.gen(e.Args[0])
+		c.inOld = save
+		return a, k, ok
 	case "un":
 		a, k, ok := c.gen(e.Args[0])
 		if !ok {
@@ -617,6 +635,8 @@ func (c *goExprGen) gen(e *Expr) (string, string, bool) {
 				r = fmt.Sprintf("bytes.Equal(%s, %s)", a, b)
 			case kb == "nil":
 				r = fmt.Sprintf("(%s == nil)", a)
+			case ka == "raw" && kb == "raw":
+				r = fmt.Sprintf("(%s == %s)", a, b)
 			case ka == "str" && kb == "str":
 				r = fmt.Sprintf("(%s == %s)", a, b)
 			default:
@@ -742,12 +762,18 @@ func (c *goExprGen) genRaw(e *Expr) (string, string, bool) {
 		}
 		for _, p := range fnv.Params {
 			if p.Name() == e.Name {
-				return p.Name(), "raw", true
+				return c.paramName(p.Name(), p.Type()), "raw", true
 			}
 		}
 		if c.bound[e.Name] {
 			return e.Name, "int", true
 		}
+	case "old":
+		save := c.inOld
+		c.inOld = true
+		a, k, ok := c.genRaw(e.Args[0])
+		c.inOld = save
+		return a, k, ok
 	case "index":
 		a, _, ok := c.genRaw(e.Args[0])
 		i, _, ok2 := c.gen(e.Args[1])
@@ -763,9 +789,22 @@ func (c *goExprGen) genRaw(e *Expr) (string, string, bool) {
 	return c.gen(e)
 }
 
+func (c *goExprGen) paramName(n string, t types.Type) string {
+	if c.inOld {
+		if pt, ok := t.Underlying().(*types.Pointer); ok {
+			if _, ok := pt.Elem().Underlying().(*types.Struct); ok {
+				return "snap_" + n
+			}
+		}
+	}
+	return n
+}
+
 func (c *goExprGen) typeOfRaw(e *Expr) types.Type {
 	fnv := c.g.vc.fn
 	switch e.Op {
+	case "old":
+		return c.typeOfRaw(e.Args[0])
 	case "id":
 		if e.Name == "result" {
 			return fnv.Signature.Results().At(0).Type()
